@@ -31,15 +31,67 @@ fn main() {
     let persist = PathBuf::from(&dep).join("src/bin/server_persistent.rs");
     println!("cargo:rerun-if-changed={}", persist.display());
     if let Ok(ps) = fs::read_to_string(&persist) {
-        if let Some(i) = ps.find("\nfn encode_resp_into(") {
-            let rest = &ps[i..];
-            let end = rest.find("\n#[cfg(test)]").unwrap_or(rest.len());
-            let text = &rest[..end];
-            if text.contains("fn encode_error_into(") {
-                let dest = PathBuf::from(std::env::var("OUT_DIR").unwrap()).join("persist_enc.rs");
-                fs::write(dest, text).unwrap();
-                println!("cargo:rustc-cfg=verif_persist_enc");
+        // each function is cut out by NAME with brace matching (whatever its visibility, attributes,
+        // position in the file or neighbours), together with the free functions of the same file it
+        // calls: a reordering, a `pub(crate)`, an `#[inline]`, a new helper or an unrelated new
+        // function next to them does not disturb the tie
+        if let Some(text) = extract_fns(&ps, &["encode_resp_into", "encode_error_into"]) {
+            let dest = PathBuf::from(std::env::var("OUT_DIR").unwrap()).join("persist_enc.rs");
+            fs::write(dest, text).unwrap();
+            println!("cargo:rustc-cfg=verif_persist_enc");
+        }
+    }
+    // two more codec functions private to bin targets, cut out the same way: the CLI client's
+    // `encode_command` (src/main.rs, encoder 7) and the shadow proxy's `parse_resp_command`
+    // (src/bin/shadow_proxy.rs, the proxy's command-name extractor)
+    for (cfg, rel, names, out) in [
+        ("verif_main_enc", "src/main.rs", &["encode_command"][..], "main_enc.rs"),
+        ("verif_proxy_dec", "src/bin/shadow_proxy.rs", &["parse_resp_command"][..], "proxy_dec.rs"),
+    ] {
+        println!("cargo:rustc-check-cfg=cfg({})", cfg);
+        let path = PathBuf::from(&dep).join(rel);
+        println!("cargo:rerun-if-changed={}", path.display());
+        if let Ok(src) = fs::read_to_string(&path) {
+            if let Some(text) = extract_fns(&src, names) {
+                fs::write(PathBuf::from(std::env::var("OUT_DIR").unwrap()).join(out), text).unwrap();
+                println!("cargo:rustc-cfg={}", cfg);
             }
+        }
+    }
+    // C08: the WHOLE binary src/bin/server_persistent.rs (its `main` is the production start-up sequence:
+    // recover → WAL replay → workers → listeners) is compiled as the harness-side binary `rvpersist`
+    // (src/bin/rvpersist.rs includes this copy; only the leading inner attributes / `//!` lines are
+    // dropped, which `include!` does not accept).  cfg `verif_persist_main` = the copy exists.
+    println!("cargo:rustc-check-cfg=cfg(verif_persist_main)");
+    if let Ok(ps) = fs::read_to_string(&persist) {
+        // only crates the harness itself depends on can be named by the copy: a `use` of another crate
+        // leaves the cfg off (C08 then reports `C08:coverage:persistent-server-main-not-built` with
+        // the reason) instead of breaking the build of every check
+        let known = ["std", "core", "alloc", "bytes", "parking_lot", "redis_sim", "tokio", "tracing", "tikv_jemallocator", "serde", "serde_json", "bincode", "crc32fast"];
+        let foreign: Vec<String> = ps
+            .lines()
+            .filter_map(|l| l.trim_start().strip_prefix("use "))
+            .map(|r| r.split(|c: char| !(c.is_alphanumeric() || c == '_')).next().unwrap_or("").to_string())
+            .filter(|c| !c.is_empty() && !known.contains(&c.as_str()) && c != "super" && c != "crate" && c != "self")
+            .collect();
+        let reason = if !foreign.is_empty() { format!("src/bin/server_persistent.rs uses crate(s) the harness does not depend on: {}", foreign.join(", ")) } else if !ps.contains("async fn main()") { "src/bin/server_persistent.rs has no `async fn main()`".to_string() } else { String::new() };
+        println!("cargo:rustc-env=RV_PERSIST_REASON={}", reason);
+        if ps.contains("async fn main()") && foreign.is_empty() {
+            let mut body = String::new();
+            let mut head = true;
+            for line in ps.lines() {
+                let t = line.trim_start();
+                if head && (t.starts_with("//!") || t.starts_with("#![") || t.is_empty()) {
+                    body.push('\n');
+                    continue;
+                }
+                head = false;
+                body.push_str(line);
+                body.push('\n');
+            }
+            let dest = PathBuf::from(std::env::var("OUT_DIR").unwrap()).join("persist_main.rs");
+            fs::write(dest, body).unwrap();
+            println!("cargo:rustc-cfg=verif_persist_main");
         }
     }
     let file = PathBuf::from(&dep).join("src/production/sharded_actor.rs");
@@ -291,6 +343,7 @@ fn main() {
     data_api(&dep);
     command_api(&dep);
     wal_scan(&dep);
+    route_scan(&dep);
 }
 
 /// `pub fn` / `pub(crate) fn` names of the FIRST inherent `impl <Type> {` block of every data-structure
@@ -402,9 +455,15 @@ fn command_api(dep: &str) {
     let file = PathBuf::from(dep).join("src/redis/executor/mod.rs");
     println!("cargo:rerun-if-changed={}", file.display());
     let src = fs::read_to_string(&file).unwrap_or_else(|e| panic!("{}: {}", file.display(), e));
+    // a `pub fn` is an ENTRY POINT for C01 / C17 when it can change the keyspace or produce a reply:
+    // `&mut self`, or a `RespValue` in the signature, or no receiver at all (a constructor). A `&self`
+    // function that returns something else is an accessor: it is listed in the evidence, but a new one
+    // cannot reach the property and does not fail the check.
     let mut fns: Vec<String> = Vec::new();
+    let mut accessors: Vec<String> = Vec::new();
     let mut inside = false;
-    for line in src.lines() {
+    let lines: Vec<&str> = src.lines().collect();
+    for (li, line) in lines.iter().enumerate() {
         if line.starts_with("impl CommandExecutor") {
             inside = true;
             continue;
@@ -417,7 +476,20 @@ fn command_api(dep: &str) {
             let t = line.trim_start();
             if line.starts_with("    pub fn ") {
                 let name: String = t["pub fn ".len()..].chars().take_while(|c| c.is_alphanumeric() || *c == '_').collect();
-                fns.push(name);
+                let mut sig = String::new();
+                for l in &lines[li..(li + 12).min(lines.len())] {
+                    sig.push_str(l);
+                    sig.push(' ');
+                    if l.contains('{') {
+                        break;
+                    }
+                }
+                let entry = sig.contains("&mut self") || sig.contains("RespValue") || !sig.contains("self");
+                if entry {
+                    fns.push(name);
+                } else {
+                    accessors.push(name);
+                }
             }
         }
     }
@@ -426,11 +498,12 @@ fn command_api(dep: &str) {
     }
     let list = |v: &Vec<String>| v.iter().map(|s| format!("{:?}", s)).collect::<Vec<_>>().join(", ");
     let out = format!(
-        "pub const COMMAND_VARIANTS: &[&str] = &[{}];\npub const READ_ONLY_VARIANTS: &[&str] = &[{}];\npub const READ_ONLY_IS_PLAIN_LIST: bool = {};\npub const EXECUTOR_PUB_FNS: &[&str] = &[{}];\n",
+        "pub const COMMAND_VARIANTS: &[&str] = &[{}];\npub const READ_ONLY_VARIANTS: &[&str] = &[{}];\npub const READ_ONLY_IS_PLAIN_LIST: bool = {};\npub const EXECUTOR_PUB_FNS: &[&str] = &[{}];\npub const EXECUTOR_ACCESSOR_FNS: &[&str] = &[{}];\n",
         list(&variants),
         list(&ro),
         plain,
-        list(&fns)
+        list(&fns),
+        list(&accessors)
     );
     let dest = PathBuf::from(std::env::var("OUT_DIR").unwrap()).join("command_api_gen.rs");
     fs::write(dest, out).unwrap();
@@ -574,4 +647,642 @@ fn wal_scan(dep: &str) {
     out.push_str(&format!("pub const SRC_CHECKPOINT_MAGIC: &str = {};\n", konst(&chk, "CHECKPOINT_MAGIC")));
     let dest = PathBuf::from(std::env::var("OUT_DIR").unwrap()).join("wal_gen.rs");
     fs::write(dest, out).unwrap();
+}
+
+// ---------------------------------------------------------------------------------------------
+// C03 routing table (`lean/RedisVerif/Model/RouteTable.lean`, `src/route_table.rs`): from the SOURCE of
+// the tree the harness is built against
+//   * the fields of every `Command` variant (`pub enum Command { … }`),
+//   * the variants that have an arm of their own in `ShardedActorState::execute` (with the guard),
+//   * what `Command::get_primary_key` returns for every variant (which field), where the arm has one of
+//     the shapes `Some(<binding>…)`, `<binding>.first()…`, `None`,
+// and the rows of the MODEL's table (so that the harness can name the row that differs).
+// The scan works on the text with comments removed and string literals blanked; it needs the two
+// `match`es and the enum, nothing else: renamed bindings, reordered arms, added helpers, formatting
+// do not change its result.
+
+/// comments removed, the contents of string / char literals blanked
+fn lex_strip(src: &str) -> String {
+    let b: Vec<char> = src.chars().collect();
+    let mut out = String::with_capacity(src.len());
+    let mut i = 0;
+    while i < b.len() {
+        let c = b[i];
+        if c == '/' && i + 1 < b.len() && b[i + 1] == '/' {
+            while i < b.len() && b[i] != '\n' {
+                i += 1;
+            }
+        } else if c == '/' && i + 1 < b.len() && b[i + 1] == '*' {
+            let mut depth = 1;
+            i += 2;
+            while i < b.len() && depth > 0 {
+                if b[i] == '/' && i + 1 < b.len() && b[i + 1] == '*' {
+                    depth += 1;
+                    i += 2;
+                } else if b[i] == '*' && i + 1 < b.len() && b[i + 1] == '/' {
+                    depth -= 1;
+                    i += 2;
+                } else {
+                    i += 1;
+                }
+            }
+        } else if c == 'r' && i + 1 < b.len() && (b[i + 1] == '"' || b[i + 1] == '#') && (i == 0 || !(b[i - 1].is_alphanumeric() || b[i - 1] == '_')) {
+            // raw string r"…" / r#"…"#
+            let mut j = i + 1;
+            let mut hashes = 0;
+            while j < b.len() && b[j] == '#' {
+                hashes += 1;
+                j += 1;
+            }
+            if j < b.len() && b[j] == '"' {
+                j += 1;
+                loop {
+                    if j >= b.len() {
+                        break;
+                    }
+                    if b[j] == '"' {
+                        let mut k = 0;
+                        while k < hashes && j + 1 + k < b.len() && b[j + 1 + k] == '#' {
+                            k += 1;
+                        }
+                        if k == hashes {
+                            j += 1 + hashes;
+                            break;
+                        }
+                    }
+                    j += 1;
+                }
+                out.push_str("\"\"");
+                i = j;
+            } else {
+                out.push(c);
+                i += 1;
+            }
+        } else if c == '"' {
+            i += 1;
+            while i < b.len() && b[i] != '"' {
+                if b[i] == '\\' {
+                    i += 1;
+                }
+                i += 1;
+            }
+            i += 1;
+            out.push_str("\"\"");
+        } else if c == '\'' {
+            // char literal ('x', '\n', '\'') vs lifetime ('a)
+            if i + 2 < b.len() && b[i + 1] == '\\' {
+                let mut j = i + 2;
+                while j < b.len() && b[j] != '\'' {
+                    j += 1;
+                }
+                out.push_str("' '");
+                i = j + 1;
+            } else if i + 2 < b.len() && b[i + 2] == '\'' {
+                out.push_str("' '");
+                i += 3;
+            } else {
+                out.push(c);
+                i += 1;
+            }
+        } else {
+            out.push(c);
+            i += 1;
+        }
+    }
+    out
+}
+
+/// the text between the `{` at byte offset `open` (exclusive) and its matching `}`
+fn balanced(text: &str, open: usize) -> Option<&str> {
+    let bytes = text.as_bytes();
+    if bytes.get(open) != Some(&b'{') {
+        return None;
+    }
+    let mut depth = 0i32;
+    for (i, c) in bytes.iter().enumerate().skip(open) {
+        match c {
+            b'{' => depth += 1,
+            b'}' => {
+                depth -= 1;
+                if depth == 0 {
+                    return Some(&text[open + 1..i]);
+                }
+            }
+            _ => {}
+        }
+    }
+    None
+}
+
+/// split at the separator `sep` where all of (), [], {} (and <> when `angle`) are closed
+fn split_top(text: &str, sep: char, angle: bool) -> Vec<String> {
+    let mut parts = Vec::new();
+    let mut cur = String::new();
+    let mut depth = 0i32;
+    let cs: Vec<char> = text.chars().collect();
+    let mut i = 0;
+    while i < cs.len() {
+        let c = cs[i];
+        match c {
+            '(' | '[' | '{' => depth += 1,
+            ')' | ']' | '}' => depth -= 1,
+            '<' if angle => depth += 1,
+            '>' if angle && !(i > 0 && (cs[i - 1] == '-' || cs[i - 1] == '=')) => depth -= 1,
+            _ => {}
+        }
+        // `||` / `|x|` closures never occur at depth 0 of a pattern list; `=>` is handled by the caller
+        if c == sep && depth == 0 {
+            parts.push(cur.trim().to_string());
+            cur = String::new();
+        } else {
+            cur.push(c);
+        }
+        i += 1;
+    }
+    if !cur.trim().is_empty() {
+        parts.push(cur.trim().to_string());
+    }
+    parts
+}
+
+/// the arms `(pattern text, body text)` of the match whose block content is `inner`
+fn match_arms(inner: &str) -> Vec<(String, String)> {
+    let cs: Vec<char> = inner.chars().collect();
+    let mut arms = Vec::new();
+    let mut i = 0;
+    while i < cs.len() {
+        // pattern: up to `=>` at depth 0
+        let mut depth = 0i32;
+        let start = i;
+        let mut arrow = None;
+        while i < cs.len() {
+            match cs[i] {
+                '(' | '[' | '{' => depth += 1,
+                ')' | ']' | '}' => depth -= 1,
+                '=' if depth == 0 && i + 1 < cs.len() && cs[i + 1] == '>' => {
+                    arrow = Some(i);
+                }
+                _ => {}
+            }
+            if arrow.is_some() {
+                break;
+            }
+            i += 1;
+        }
+        let Some(a) = arrow else { break };
+        let pat: String = cs[start..a].iter().collect::<String>().split_whitespace().collect::<Vec<_>>().join(" ");
+        i = a + 2;
+        while i < cs.len() && cs[i].is_whitespace() {
+            i += 1;
+        }
+        let bstart = i;
+        let mut depth = 0i32;
+        if i < cs.len() && cs[i] == '{' {
+            while i < cs.len() {
+                match cs[i] {
+                    '{' | '(' | '[' => depth += 1,
+                    '}' | ')' | ']' => depth -= 1,
+                    _ => {}
+                }
+                i += 1;
+                if depth == 0 {
+                    break;
+                }
+            }
+            let body: String = cs[bstart..i].iter().collect();
+            while i < cs.len() && (cs[i].is_whitespace() || cs[i] == ',') {
+                i += 1;
+            }
+            arms.push((pat.trim().to_string(), body));
+        } else {
+            while i < cs.len() {
+                match cs[i] {
+                    '{' | '(' | '[' => depth += 1,
+                    '}' | ')' | ']' => depth -= 1,
+                    _ => {}
+                }
+                if cs[i] == ',' && depth == 0 {
+                    break;
+                }
+                i += 1;
+            }
+            let body: String = cs[bstart..i.min(cs.len())].iter().collect();
+            i += 1;
+            arms.push((pat.trim().to_string(), body.trim().to_string()));
+        }
+    }
+    arms
+}
+
+fn ident_prefix(s: &str) -> String {
+    s.chars().take_while(|c| c.is_alphanumeric() || *c == '_').collect()
+}
+
+/// one alternative `Command::Name(a, _, b)` / `Command::Name { key: k, .. }` / `Command::Name` / `_`:
+/// (variant name or "_", bindings as (field position or field name, bound identifier))
+fn parse_alt(alt: &str) -> (String, Vec<(String, String)>) {
+    let t = alt.trim();
+    if t == "_" {
+        return ("_".into(), vec![]);
+    }
+    let t = t.trim_start_matches('&').trim();
+    let t = t.strip_prefix("Command::").or_else(|| t.strip_prefix("Self::")).unwrap_or(t);
+    let name = ident_prefix(t);
+    let rest = t[name.len()..].trim();
+    let mut binds = Vec::new();
+    let bind_of = |p: &str| -> Option<String> {
+        let p = p.trim().trim_start_matches("ref ").trim_start_matches("mut ").trim();
+        let id = ident_prefix(p);
+        if !id.is_empty() && id.len() == p.len() && id != "_" && id.chars().next().map(|c| c.is_lowercase() || c == '_').unwrap_or(false) {
+            Some(id)
+        } else {
+            None
+        }
+    };
+    if rest.starts_with('(') && rest.ends_with(')') {
+        for (i, sub) in split_top(&rest[1..rest.len() - 1], ',', false).iter().enumerate() {
+            if let Some(b) = bind_of(sub) {
+                binds.push((i.to_string(), b));
+            }
+        }
+    } else if rest.starts_with('{') && rest.ends_with('}') {
+        for item in split_top(&rest[1..rest.len() - 1], ',', false) {
+            if item == ".." {
+                continue;
+            }
+            if let Some((f, p)) = item.split_once(':') {
+                if let Some(b) = bind_of(p) {
+                    binds.push((f.trim().to_string(), b));
+                }
+            } else if let Some(b) = bind_of(&item) {
+                binds.push((b.clone(), b));
+            }
+        }
+    }
+    (name, binds)
+}
+
+fn word_in(text: &str, w: &str) -> bool {
+    let mut from = 0;
+    while let Some(p) = text[from..].find(w) {
+        let a = from + p;
+        let b = a + w.len();
+        let before = text[..a].chars().last().map(|c| c.is_alphanumeric() || c == '_').unwrap_or(false);
+        let after = text[b..].chars().next().map(|c| c.is_alphanumeric() || c == '_').unwrap_or(false);
+        if !before && !after {
+            return true;
+        }
+        from = b;
+    }
+    false
+}
+
+fn route_scan(dep: &str) {
+    let mut notes: Vec<String> = Vec::new();
+    let cut = |s: String| -> String { s.split("\n#[cfg(test)]").next().unwrap_or("").to_string() };
+    // ---- enum Command: variant → fields
+    let cmd_file = PathBuf::from(dep).join("src/redis/command.rs");
+    let cmd_src = cut(lex_strip(&fs::read_to_string(&cmd_file).unwrap_or_default()));
+    let mut fields: Vec<(String, Vec<(String, String)>)> = Vec::new();
+    if let Some(p) = cmd_src.find("pub enum Command") {
+        if let Some(open) = cmd_src[p..].find('{') {
+            if let Some(inner) = balanced(&cmd_src, p + open) {
+                for item in split_top(inner, ',', true) {
+                    // attributes in front of a variant
+                    let mut t = item.trim();
+                    while t.starts_with("#[") {
+                        match t.find(']') {
+                            Some(e) => t = t[e + 1..].trim(),
+                            None => break,
+                        }
+                    }
+                    let name = ident_prefix(t);
+                    if name.is_empty() {
+                        continue;
+                    }
+                    let rest = t[name.len()..].trim();
+                    let mut fs_: Vec<(String, String)> = Vec::new();
+                    if rest.starts_with('(') && rest.ends_with(')') {
+                        for (i, ty) in split_top(&rest[1..rest.len() - 1], ',', true).iter().enumerate() {
+                            fs_.push((i.to_string(), ty.split_whitespace().collect::<String>()));
+                        }
+                    } else if rest.starts_with('{') && rest.ends_with('}') {
+                        for f in split_top(&rest[1..rest.len() - 1], ',', true) {
+                            if let Some((n, ty)) = f.split_once(':') {
+                                fs_.push((n.trim().trim_start_matches("pub ").to_string(), ty.split_whitespace().collect::<String>()));
+                            }
+                        }
+                    }
+                    fields.push((name, fs_));
+                }
+            }
+        }
+    }
+    if fields.len() < 50 {
+        notes.push(format!("enum Command: only {} variants found", fields.len()));
+    }
+    // ---- get_primary_key: variant → field it returns
+    let mut primary: Vec<(String, String)> = Vec::new();
+    let field_index = |variant: &str, f: &str| -> Option<usize> {
+        fields.iter().find(|(n, _)| n == variant).and_then(|(_, fs_)| fs_.iter().position(|(n, _)| n == f))
+    };
+    let mut wildcard_sel: Option<String> = None;
+    match cmd_src.find("fn get_primary_key") {
+        None => notes.push("Command::get_primary_key not found".into()),
+        Some(p) => {
+            let body = cmd_src[p..].find('{').and_then(|o| balanced(&cmd_src, p + o));
+            let inner = body.and_then(|b| b.find("match").and_then(|m| b[m..].find('{').and_then(|o| balanced(b, m + o))));
+            match inner {
+                None => notes.push("get_primary_key: no `match` in its body".into()),
+                Some(inner) => {
+                    for (pat, body) in match_arms(inner) {
+                        let (pat, guard) = match pat.find(" if ") {
+                            Some(g) => (pat[..g].to_string(), pat[g + 4..].to_string()),
+                            None => (pat.clone(), String::new()),
+                        };
+                        for alt in split_top(&pat, '|', false) {
+                            let (name, binds) = parse_alt(&alt);
+                            let body_t = body.trim().trim_matches(|c| c == '{' || c == '}').trim().to_string();
+                            let sel = if !guard.is_empty() {
+                                format!("?guarded({})", guard.trim())
+                            } else if body_t == "None" {
+                                "none".to_string()
+                            } else {
+                                let used: Vec<&(String, String)> = binds.iter().filter(|(_, b)| word_in(&body_t, b)).collect();
+                                if used.len() == 1 {
+                                    match field_index(&name, &used[0].0) {
+                                        Some(i) if body_t.contains(".first()") || body_t.contains(".get(0)") || body_t.contains("[0]") => format!("first-of-field{}", i),
+                                        Some(i) if body_t.starts_with("Some(") => format!("field{}", i),
+                                        Some(i) => format!("?field{}({})", i, body_t.split_whitespace().collect::<Vec<_>>().join(" ")),
+                                        None => format!("?unknown-field({})", used[0].0),
+                                    }
+                                } else {
+                                    format!("?({})", body_t.split_whitespace().collect::<Vec<_>>().join(" "))
+                                }
+                            };
+                            if name == "_" {
+                                wildcard_sel = Some(sel);
+                            } else {
+                                primary.push((name, sel));
+                            }
+                        }
+                    }
+                }
+            }
+        }
+    }
+    if let Some(w) = &wildcard_sel {
+        for (v, _) in &fields {
+            if !primary.iter().any(|(n, _)| n == v) {
+                primary.push((v.clone(), w.clone()));
+            }
+        }
+    }
+    // ---- ShardedActorState::execute: the variants with an arm of their own
+    let sa_file = PathBuf::from(dep).join("src/production/sharded_actor.rs");
+    let sa_src = cut(lex_strip(&fs::read_to_string(&sa_file).unwrap_or_default()));
+    let mut arms: Vec<(String, String, String)> = Vec::new();
+    let mut has_wildcard = false;
+    // the LAST `pub async fn execute(` of the file: ShardHandle has one too, ShardedActorState's comes later
+    match sa_src.rfind("pub async fn execute(") {
+        None => notes.push("ShardedActorState::execute not found".into()),
+        Some(p) => {
+            let body = sa_src[p..].find('{').and_then(|o| balanced(&sa_src, p + o));
+            let inner = body.and_then(|b| b.find("match cmd").and_then(|m| b[m..].find('{').and_then(|o| balanced(b, m + o))));
+            match inner {
+                None => notes.push("execute: no `match cmd {` in its body".into()),
+                Some(inner) => {
+                    for (pat, body) in match_arms(inner) {
+                        let (pat, guard) = match pat.find(" if ") {
+                            Some(g) => (pat[..g].to_string(), pat[g + 4..].split_whitespace().collect::<Vec<_>>().join(" ")),
+                            None => (pat.clone(), String::new()),
+                        };
+                        // features of the arm body (information only: the behaviour is probed on the binary)
+                        let mut feats: Vec<&str> = Vec::new();
+                        if body.contains("self.shards.iter()") {
+                            feats.push("iterates-all-shards");
+                        }
+                        if body.contains("hash_key(") {
+                            feats.push("hash_key");
+                        }
+                        if body.contains("self.shards[0]") {
+                            feats.push("shard0");
+                        }
+                        if body.contains("get_primary_key") {
+                            feats.push("get_primary_key");
+                        }
+                        if word_in(&body, "return") {
+                            feats.push("early-return");
+                        }
+                        if !body.contains("self.shards") && !body.contains("self.") {
+                            feats.push("no-shard-access");
+                        }
+                        for alt in split_top(&pat, '|', false) {
+                            let (name, _) = parse_alt(&alt);
+                            if name == "_" {
+                                has_wildcard = true;
+                            } else if !name.is_empty() {
+                                arms.push((name, guard.clone(), feats.join("+")));
+                            }
+                        }
+                    }
+                }
+            }
+        }
+    }
+    // ---- the model's rows
+    let lean = PathBuf::from(std::env::var("CARGO_MANIFEST_DIR").unwrap()).join("../lean/RedisVerif/Model/RouteTable.lean");
+    println!("cargo:rerun-if-changed={}", lean.display());
+    let mut model_rows: Vec<(String, String, String)> = Vec::new();
+    for line in fs::read_to_string(&lean).unwrap_or_default().lines() {
+        let t = line.trim();
+        if let Some(r) = t.strip_prefix("⟨\"") {
+            if let Some((name, rest)) = r.split_once("\", .") {
+                let rest = rest.trim_end_matches(',').trim_end_matches(']').trim_end_matches('⟩');
+                if let Some((arm, sel)) = rest.split_once(", .") {
+                    model_rows.push((name.to_string(), arm.trim().to_string(), sel.trim().to_string()));
+                }
+            }
+        }
+    }
+    let q = |s: &str| format!("{:?}", s);
+    let mut out = String::new();
+    out.push_str(&format!(
+        "pub const SRC_COMMAND_FIELDS: &[(&str, &[(&str, &str)])] = &[{}];\n",
+        fields.iter().map(|(n, fs_)| format!("({}, &[{}])", q(n), fs_.iter().map(|(a, b)| format!("({}, {})", q(a), q(b))).collect::<Vec<_>>().join(", "))).collect::<Vec<_>>().join(", ")
+    ));
+    out.push_str(&format!("pub const SRC_PRIMARY_KEY: &[(&str, &str)] = &[{}];\n", primary.iter().map(|(a, b)| format!("({}, {})", q(a), q(b))).collect::<Vec<_>>().join(", ")));
+    out.push_str(&format!("pub const SRC_EXECUTE_ARMS: &[(&str, &str, &str)] = &[{}];\n", arms.iter().map(|(a, b, c)| format!("({}, {}, {})", q(a), q(b), q(c))).collect::<Vec<_>>().join(", ")));
+    out.push_str(&format!("pub const SRC_EXECUTE_HAS_WILDCARD: bool = {};\n", has_wildcard));
+    out.push_str(&format!("pub const SRC_ROUTE_SCAN_NOTES: &[&str] = &[{}];\n", notes.iter().map(|s| q(s)).collect::<Vec<_>>().join(", ")));
+    out.push_str(&format!("pub const MODEL_ROUTE_ROWS: &[(&str, &str, &str)] = &[{}];\n", model_rows.iter().map(|(a, b, c)| format!("({}, {}, {})", q(a), q(b), q(c))).collect::<Vec<_>>().join(", ")));
+    let dest = PathBuf::from(std::env::var("OUT_DIR").unwrap()).join("route_gen.rs");
+    fs::write(dest, out).unwrap();
+}
+
+// ---------------------------------------------------------------------------------------------
+// cutting free functions out of a source text by name (used for the bin-private reply encoders, C15)
+
+/// index just behind the `}` that closes the block opening at `open` (`src[open] == '{'`); string,
+/// raw-string, byte-string and char literals and comments are skipped
+fn match_brace(src: &[u8], open: usize) -> Option<usize> {
+    let mut depth = 0usize;
+    let mut i = open;
+    while i < src.len() {
+        let c = src[i];
+        match c {
+            b'/' if src.get(i + 1) == Some(&b'/') => {
+                while i < src.len() && src[i] != b'\n' {
+                    i += 1;
+                }
+                continue;
+            }
+            b'/' if src.get(i + 1) == Some(&b'*') => {
+                let mut d = 1;
+                i += 2;
+                while i + 1 < src.len() && d > 0 {
+                    if src[i] == b'/' && src[i + 1] == b'*' {
+                        d += 1;
+                        i += 2;
+                    } else if src[i] == b'*' && src[i + 1] == b'/' {
+                        d -= 1;
+                        i += 2;
+                    } else {
+                        i += 1;
+                    }
+                }
+                continue;
+            }
+            b'r' if matches!(src.get(i + 1), Some(&b'"') | Some(&b'#'))
+                && (i == 0 || !(src[i - 1].is_ascii_alphanumeric() || src[i - 1] == b'_') || src[i - 1] == b'b') =>
+            {
+                // raw string r"…" / r#"…"# (also br"…")
+                let mut j = i + 1;
+                let mut hashes = 0;
+                while src.get(j) == Some(&b'#') {
+                    hashes += 1;
+                    j += 1;
+                }
+                if src.get(j) == Some(&b'"') {
+                    j += 1;
+                    'raw: while j < src.len() {
+                        if src[j] == b'"' {
+                            let mut k = 0;
+                            while k < hashes && src.get(j + 1 + k) == Some(&b'#') {
+                                k += 1;
+                            }
+                            if k == hashes {
+                                j += 1 + hashes;
+                                break 'raw;
+                            }
+                        }
+                        j += 1;
+                    }
+                    i = j;
+                    continue;
+                }
+            }
+            b'"' => {
+                i += 1;
+                while i < src.len() && src[i] != b'"' {
+                    if src[i] == b'\\' {
+                        i += 1;
+                    }
+                    i += 1;
+                }
+            }
+            b'\'' => {
+                // a char literal ('x', '\n', '\'', '\u{1f600}', a multi-byte char) or a lifetime ('a)
+                if src.get(i + 1) == Some(&b'\\') {
+                    i += 3;
+                    while i < src.len() && src[i] != b'\'' {
+                        i += 1;
+                    }
+                } else {
+                    let close = (2..=5).find(|k| src.get(i + k) == Some(&b'\''));
+                    let ident = src.get(i + 1).map(|c| c.is_ascii_alphabetic() || *c == b'_').unwrap_or(false);
+                    match close {
+                        Some(k) if !(ident && k > 2) => i += k,
+                        _ => {}
+                    }
+                }
+            }
+            b'{' => depth += 1,
+            b'}' => {
+                depth -= 1;
+                if depth == 0 {
+                    return Some(i + 1);
+                }
+            }
+            _ => {}
+        }
+        i += 1;
+    }
+    None
+}
+
+/// the text of the free function `name` of `src` (from the `fn` keyword — visibility and attributes
+/// are dropped — to its closing brace)
+fn extract_fn(src: &str, name: &str) -> Option<String> {
+    let b = src.as_bytes();
+    let pat = format!("fn {}", name);
+    let mut from = 0;
+    while let Some(off) = src[from..].find(&pat) {
+        let at = from + off;
+        from = at + pat.len();
+        let before_ok = at == 0 || !(b[at - 1].is_ascii_alphanumeric() || b[at - 1] == b'_');
+        let after_ok = matches!(b.get(at + pat.len()).copied(), Some(b'(') | Some(b'<') | Some(b' '));
+        // only a FREE function: its line starts in column 0 with nothing but visibility / qualifiers
+        let line_start = src[..at].rfind('\n').map(|x| x + 1).unwrap_or(0);
+        let prefix = &src[line_start..at];
+        let free = prefix.chars().next().map(|c| !c.is_whitespace()).unwrap_or(true)
+            && prefix.split_whitespace().all(|w| w == "pub" || w.starts_with("pub(") || w == "async" || w == "const" || w == "unsafe");
+        if !(before_ok && after_ok && free) {
+            continue;
+        }
+        let open = at + src[at..].find('{')?;
+        let end = match_brace(b, open)?;
+        return Some(src[at..end].to_string());
+    }
+    None
+}
+
+/// the functions `names` of `src` (all of them, or nothing) and, transitively, the free functions of
+/// `src` they call
+fn extract_fns(src: &str, names: &[&str]) -> Option<String> {
+    let mut have: Vec<String> = Vec::new();
+    let mut out = String::new();
+    let mut todo: Vec<String> = names.iter().rev().map(|s| s.to_string()).collect();
+    while let Some(n) = todo.pop() {
+        if have.contains(&n) {
+            continue;
+        }
+        let text = match extract_fn(src, &n) {
+            Some(t) => t,
+            None if names.contains(&n.as_str()) => return None,
+            None => continue,
+        };
+        have.push(n.clone());
+        // identifiers followed by `(` that are neither method calls nor paths: candidate helpers
+        let tb = text.as_bytes();
+        let mut i = 0;
+        while i < tb.len() {
+            if tb[i].is_ascii_alphabetic() || tb[i] == b'_' {
+                let st = i;
+                while i < tb.len() && (tb[i].is_ascii_alphanumeric() || tb[i] == b'_') {
+                    i += 1;
+                }
+                let id = &text[st..i];
+                let prev = if st == 0 { b' ' } else { tb[st - 1] };
+                if tb.get(i) == Some(&b'(') && prev != b'.' && prev != b':' && id != n && !have.iter().any(|h| h == id) && have.len() + todo.len() < 16 {
+                    todo.push(id.to_string());
+                }
+            } else {
+                i += 1;
+            }
+        }
+        out.push_str(&text);
+        out.push_str("\n\n");
+    }
+    Some(out)
 }
